@@ -84,6 +84,10 @@ def malformed_stream(rnd, tier, per_seed=10):
                 b[j:j + 2] = rnd.choice([b'\0\0', b'\xff\xff', b'\0\1', b'\0\4', b'\xff\0'])
                 cases.append((stack, b2s(bytes(b)), 'length-field'))
         cases.append((stack, bits + randbits(rnd, rnd.randint(1, 7)), 'non-aligned'))
+    for _ in range(12 if T else 3):
+        j = P.sctp_jumbo_malformed(rnd)
+        cases.append(('SCTP', b2s(j), 'jumbo-valueless-chunk'))
+        cases.append(('IPv4', b2s(P.ipv4(rnd, j, 132)), 'jumbo-valueless-chunk'))
     for _ in range(3000 if T else 300):
         stack = rnd.choice(ALL_STACKS + ['CoAP-semantic'])
         n = rnd.choice([rnd.randint(0, 64), rnd.randint(0, 400), rnd.randint(0, 2400)])
